@@ -48,6 +48,7 @@ def setup(ctx):
     ctx.require("monitor", "faults_fired", 93)
     ctx.require("monitor", "protocol_uploads", 24)
     ctx.require("monitor", "sequence_requests", 50)
+    ctx.require("monitor", "requests_on_one_long_lived_handler", 400)
     ctx.require("monitor", "churn_requests", 14)
     ctx.require("monitor", "lookalike_media_types", 20)
     ctx.require("monitor", "lookalike_tokens", 40)
@@ -465,7 +466,11 @@ def run_sequence(ctx, rng):
             h = FileUploadHandler(up, max_size=cfg["max_size"], allowed_types=cfg["types"],
                                   auth_tokens=set(cfg["tokens"]) if cfg["tokens"] else None, enable_delete=cfg["delete"])
             prev_ok = None
-            for step in range(5):
+            # (one handler per run lives through hundreds of requests: what it does on the N-th is what it does on the first)
+            nsteps = ctx.pick(400, 3000) if trial == 0 and (ctx.mine(9) or ctx.nshards == 1) else 5
+            if nsteps > 5:
+                ctx.count("monitor", "requests_on_one_long_lived_handler", nsteps)
+            for step in range(nsteps):
                 path, pclass = rng.choice(PATHS)
                 if path == "ABS":
                     path = "/" + os.path.join(base, "outside", "victim.txt")
